@@ -6,7 +6,7 @@ from fractions import Fraction as Fr
 
 import vlib
 
-MODEL_VO = ['Geo/CellQ.vo']
+MODEL_VO = ['Geo/CellQ.vo', 'Geo/Neighbor.vo']
 
 
 def gen_tables():
@@ -204,3 +204,118 @@ def cell_for_system(rng, name, exact=True):
     if name[0] in 'PR' and name[2] in '36':
         return [a, a, c, 90.0, 90.0, 120.0]
     return [a, a, a, 90.0, 90.0, 90.0]
+
+
+# ---------------------------------------------------------------- neighbour search (C20)
+
+NS_GROUPS = ['-', 'P 1', 'P -1', 'P 1 21 1', 'C 1 2 1', 'P 21 21 21', 'P 41 21 2', 'P 31 2 1', 'R 3:H', 'P 63', 'P 2 3',
+             'I 4', 'F 2 3']
+
+
+def ns_cell_for(rng, sg, tiny=False, oblique=False):
+    lo, hi = (2.0, 6.0) if tiny else (8.0, 40.0)
+    a, b, c = (round(rng.uniform(lo, hi), 2) for _ in range(3))
+    ob = lambda: round(rng.uniform(50, 130) if oblique else rng.uniform(75, 115), 2)
+    if sg in ('-', 'P 1', 'P -1'):
+        for _ in range(200):
+            ang = [ob(), ob(), ob()] if rng.random() < 0.8 else [90.0, 90.0, 90.0]
+            if deg_cell_ok(*ang, dmin=0.05):
+                return [a, b, c] + ang
+    if sg in ('P 1 21 1', 'C 1 2 1'):
+        return [a, b, c, 90.0, ob(), 90.0]
+    if sg == 'P 21 21 21':
+        return [a, b, c, 90.0, 90.0, 90.0]
+    if sg in ('P 41 21 2', 'I 4'):
+        return [a, a, c, 90.0, 90.0, 90.0]
+    if sg in ('P 31 2 1', 'R 3:H', 'P 63'):
+        return [a, a, c, 90.0, 90.0, 120.0]
+    return [a, a, a, 90.0, 90.0, 90.0]
+
+
+def rand_rotation(rng):
+    ax = [rng.gauss(0, 1) for _ in range(3)]
+    n = math.sqrt(sum(x * x for x in ax))
+    x, y, z = (v / n for v in ax)
+    t = rng.uniform(0.2, 3.0)
+    c, s = math.cos(t), math.sin(t)
+    C = 1 - c
+    return [c + x * x * C, x * y * C - z * s, x * z * C + y * s,
+            y * x * C + z * s, c + y * y * C, y * z * C - x * s,
+            z * x * C - y * s, z * y * C + x * s, c + z * z * C]
+
+
+def gen_ns_case(rng, kind=None, rbuild_factors=(1,)):
+    """o_ns lines (one per build radius; same model and queries): cell, group, ncs, build radius, atoms, queries"""
+    kind = kind or rng.choice(['normal', 'normal', 'oblique', 'tiny', 'tiny', 'noncrystal', 'ncs', 'bigk'])
+    ncs = []
+    if kind == 'noncrystal':
+        sg = '-'
+        cell = [1.0, 1.0, 1.0, 90.0, 90.0, 90.0]
+        for _ in range(rng.choice([0, 0, 1, 2])):
+            ncs.append(rand_rotation(rng) + [round(rng.uniform(-15, 15), 3) for _ in range(3)])
+    else:
+        sg = rng.choice(NS_GROUPS[1:])
+        cell = ns_cell_for(rng, sg, tiny=(kind == 'tiny'), oblique=(kind == 'oblique'))
+        if kind == 'ncs':
+            ncs.append(rand_rotation(rng) + [round(rng.uniform(-5, 5), 3) for _ in range(3)])
+    natoms = rng.choice([1, 2, 3, 5, 8, 15, 30]) if kind != 'tiny' else rng.choice([1, 2, 3, 5])
+    span = max(cell[:3]) if kind != 'noncrystal' else rng.choice([5.0, 20.0, 40.0])
+    atoms = []
+    for i in range(natoms):
+        r = rng.random()
+        if r < 0.8 or not atoms:
+            pos = [round(rng.uniform(-0.3 * span, 1.3 * span), 3) for _ in range(3)]
+        else:   # close to another atom
+            pos = [round(v + rng.uniform(-2, 2), 3) for v in rng.choice(atoms)[:3]]
+        alt = rng.choice(['-', '-', '-', 'A', 'B'])
+        el = rng.choice(['C', 'C', 'C', 'H', 'D'])
+        atoms.append(pos + [alt, el])
+    if kind == 'tiny':
+        rbuild = round(rng.uniform(1.0, 2.5) * max(cell[:3]), 2) if rng.random() < 0.6 else round(rng.uniform(2, 6), 2)
+    else:
+        rbuild = rng.choice([3.0, 4.0, 5.0, 7.5, 10.0, round(rng.uniform(1.5, 12), 2)])
+    inc_h = rng.choice([1, 1, 0])
+    queries = []
+    for _ in range(rng.choice([2, 3, 4])):
+        r = rng.random()
+        if r < 0.5:
+            pos = [round(rng.uniform(-0.2 * span, 1.2 * span), 3) for _ in range(3)]
+        elif r < 0.75:
+            pos = [round(v + rng.uniform(-1.5, 1.5), 3) for v in rng.choice(atoms)[:3]]
+        else:     # far outside the cell
+            pos = [round(rng.uniform(-6 * span, 6 * span), 3) for _ in range(3)]
+        f = rng.choice([0.1, 0.5, 0.9, 1.0, 1.0, 1.3, 2.0, 2.9]) if kind != 'bigk' else rng.choice([2.0, 2.9, 3.0, 1.0001])
+        radius = round(rbuild * f, 4) if rng.random() < 0.9 else 0
+        min_dist = rng.choice([0, 0, 0, 0.01, 0.5, round(rng.uniform(0, radius), 3)])
+        queries.append(pos + [rng.choice(['-', '-', 'A', 'B']), radius, min_dist])
+    out = []
+    for fac in rbuild_factors:
+        toks = [repr(float(x)) for x in cell] + [sg.replace(' ', '_'), str(len(ncs))]
+        for n in ncs:
+            toks += [repr(x) for x in n]
+        toks += [repr(round(rbuild * fac, 4)), str(inc_h), str(natoms)]
+        for a in atoms:
+            toks += [repr(a[0]), repr(a[1]), repr(a[2]), a[3], a[4]]
+        toks.append(str(len(queries)))
+        for q in queries:
+            # radius 0 means "the build radius": only meaningful for the base variant
+            rad = q[4] if (q[4] != 0 or fac == 1) else rbuild
+            toks += [repr(q[0]), repr(q[1]), repr(q[2]), q[3], repr(float(rad)), repr(float(q[5]))]
+        out.append('o_ns\t' + ' '.join(toks))
+    return out, kind
+
+
+def gen_walk_case(rng):
+    r = rng.random()
+    if r < 0.3:
+        cell = [round(rng.uniform(2, 6), 2) for _ in range(3)] + [90.0, 90.0, 90.0]
+    else:
+        cell = rand_dcell(rng)
+        cell[:3] = [round(rng.uniform(3, 60), 2) for _ in range(3)]
+    rbuild = rng.choice([2.0, 3.0, 5.0, 8.0, round(rng.uniform(1, 15), 2)])
+    span = max(cell[:3])
+    pos = [round(rng.uniform(-3 * span, 3 * span), 3) for _ in range(3)]
+    if rng.random() < 0.2:
+        pos = [0.0, 0.0, 0.0]
+    k = rng.choice([1, 1, 1, 2, 2, 3, 4, 7])
+    return 'walk\t%s %r %s %d' % (dcell_str(cell), rbuild, ' '.join(repr(x) for x in pos), k)
